@@ -4,6 +4,7 @@
 name=$1; prop=$2; shift 2
 M=/tmp/mut/$name; S=/verif/seeded/$name
 mkdir -p $S
+if [ -d $M ]; then
 [ -s $M/patch.diff ] || git -C $M diff -- src > $M/patch.diff
 cp $M/patch.diff $S/patch.diff; cp $M/demo.py $S/demo.py
 sed -i "s|/tmp/mut/$name/src|/repo/src|g" $S/demo.py
@@ -13,6 +14,7 @@ git apply $S/patch.diff || { echo "patch does not apply to the scratch worktree"
 /venv/bin/python demo.py > $S/demo.out 2>&1; mutated=$?
 suite=$(/venv/bin/python -m pytest -q -p no:cacheprovider 2>&1 | tail -1)
 echo "demo: unchanged exit=$clean, changed exit=$mutated; suite: $suite"
+else echo "(scratch worktree gone: re-running the checks only)"; fi
 # run the checks against it in /repo
 cd /verif
 git -C /repo apply $S/patch.diff || { echo "patch does not apply to /repo"; exit 3; }
